@@ -1,6 +1,7 @@
 package an
 
 import (
+	"regexp"
 	"strings"
 )
 
@@ -192,6 +193,56 @@ func runC13(p *Prog, r *Report) {
 	}
 
 	// ---- C13.9 provenance
+	// the read-only pipe options describe the actual connection: every transport that records
+	// an address, TLS state or peer credential on a pipe records the value of that kind
+	// (a peer uid under PEER-UID, not the gid; the remote address under REMOTE-ADDR, …)
+	{
+		R2 := "C13.12/pipe-options-describe-the-connection"
+		r.Describe(R2, "each read-only pipe option is set from the datum of its own kind: PEER-PID/UID/GID from the credential's Pid/Uid/Gid, LOCAL-ADDR from LocalAddr(), REMOTE-ADDR from RemoteAddr()")
+		kinds := map[string][]string{
+			`"PEER-PID"`: {".Pid)"}, `"PEER-UID"`: {".Uid)"}, `"PEER-GID"`: {".Gid)"},
+			`"LOCAL-ADDR"`: {"LocalAddr(", ".Addr(", "recv.addr", ".addr"}, `"REMOTE-ADDR"`: {"RemoteAddr(", "recv.addr", ".addr"},
+		}
+		n := 0
+		for _, fn := range p.Funcs {
+			rel, _ := p.FuncRel(fn)
+			if !strings.HasPrefix(rel, "transport") {
+				continue
+			}
+			f := &F{q: q, fn: fn, Name: p.FuncName(fn), evs: p.Events(fn)}
+			for _, e := range f.All() {
+				if e.Kind != "call" && e.Kind != "mapupdate" {
+					continue
+				}
+				var opt, val string
+				switch {
+				case e.Kind == "call" && strings.HasSuffix(e.What, "SetOption") && len(e.Args) >= 3:
+					opt, val = e.Args[len(e.Args)-2], e.Args[len(e.Args)-1]
+				case e.Kind == "mapupdate" && strings.HasSuffix(e.What, ".options") && len(e.Args) == 2:
+					opt, val = e.Args[0], e.Args[1]
+				default:
+					continue
+				}
+				want, ok := kinds[opt]
+				if !ok {
+					continue
+				}
+				if argRe.MatchString(val) {
+					continue // a setter helper's own parameter: judged where the helper is called
+				}
+				n++
+				good := false
+				for _, w := range want {
+					if strings.Contains(val, w) {
+						good = true
+					}
+				}
+				r.Check(good, R2, f.Name+"/"+strings.Trim(opt, `"`), p.InstrPos(e.At()), opt+" = "+val, "the pipe option "+opt+" is set from "+val+", which is not the datum of that kind: the pipe reports wrong information about its connection")
+			}
+		}
+		r.Count("c13.pipe_option_sets", n)
+		r.Floor(R2, "c13.pipe_option_sets", 5)
+	}
 	R = "C13.9/provenance"
 	r.Describe(R, "dial passes its dialer (and no listener) to addPipe, serve its listener (and no dialer); newPipe stores them; accessors read them")
 	dl := q.Fn(R, "internal/core", "dialer", "dial")
@@ -343,3 +394,6 @@ func allocatorFreshness(p *Prog, r *Report, R string) {
 	}
 	q.Req(R, "advances-before-return", len(rets) >= 1 && len(adv) >= 1 && rets.DominatedBy(adv), rets.Pos(p), "the counter has moved past the id before it is returned", "Get returns an id without having advanced the counter past it: the id just handed out is the next candidate again, so it is re-used as soon as it is freed (a late reply addressed to the departed connection reaches the newcomer)")
 }
+
+
+var argRe = regexp.MustCompile(`^arg[0-9]+$`)
